@@ -100,8 +100,22 @@ func finish(p props.Property, c *props.Case, e *evalResult) {
 		return
 	}
 	exp := make([]hist.Obs, len(mobs))
+	// ops that produce an observation, in order (one observation each)
+	var obsOps []int
+	for i, op := range c.Hist {
+		switch op.Kind {
+		case "render", "rcode", "rplain", "save", "imports":
+			obsOps = append(obsOps, i)
+		}
+	}
 	for i, m := range mobs {
-		exp[i] = hist.Expected(m, false)
+		// the model prints no mode for a save: File.Save writes the text unformatted iff the
+		// file's NoFormat is set at that point of the history
+		nf := false
+		if m.Kind == "save" && i < len(obsOps) {
+			nf = noformatAt(c.Hist, obsOps[i], c.Hist[obsOps[i]].F)
+		}
+		exp[i] = hist.Expected(m, nf)
 	}
 	e.corresp = p.Compare(c, exp, e.got)
 	e.oracle = p.Oracle(c, e.got)
@@ -161,6 +175,9 @@ func main() {
 		os.Exit(2)
 	}
 	defer pool.Close()
+	if cl, ok := p.(props.Closer); ok {
+		defer cl.Close() // run-time resources of the property (temp directories of Save targets)
+	}
 
 	rng := rand.New(rand.NewSource(*seed))
 	var cases []*props.Case
